@@ -107,3 +107,24 @@ Definition two_pt : list pr :=
 Theorem C06_refuted_before_fix_F12 : exists l, 0 < sw l /\ 0 < q2 l /\
   ssr_sim l (model l) < ssr_sim l (legacy_rscale_F12 l).
 Proof. exists two_pt. vm_compute. repeat split; reflexivity. Qed.
+
+(* --- the trigonometric formulation of the code equals the rational normal form of the model (over R; these two
+       theorems depend on the standard library's real-number axioms, listed by Print Assumptions) --- *)
+From Coq Require Import Reals.
+From TW Require Import Atan2 RscaleBridge.
+
+(* fit_rscale: theta = arctan2(num, den) (+ 360 deg if negative), mag = (den cos theta + num sin theta) / su2v2:
+   mag cos theta = den / su2v2 and mag sin theta = num / su2v2, i.e. the matrix entries ma, mb of the model *)
+Theorem C06_rscale_code_form_is_model_form : forall num den q2 : R, (den <> 0 \/ num <> 0)%R -> (0 < q2)%R ->
+  (s_num num den / q2 * cos (theta num den) = den / q2 /\ s_num num den / q2 * sin (theta num den) = num / q2)%R.
+Proof. exact rscale_trig_form. Qed.
+Print Assumptions C06_rscale_code_form_is_model_form.
+
+(* fit_rshift (scale fixed to 1): (cos theta, sin theta) is a unit vector positively collinear with (den, num) -
+   exactly the hypotheses under which C06_rshift_optimal proves optimality *)
+Theorem C06_rshift_code_form_meets_optimality_hypotheses : forall num den : R, (den <> 0 \/ num <> 0)%R ->
+  (cos (theta num den) * cos (theta num den) + sin (theta num den) * sin (theta num den) = 1 /\
+   cos (theta num den) * num = sin (theta num den) * den /\
+   0 <= cos (theta num den) * den + sin (theta num den) * num)%R.
+Proof. exact rshift_trig_form. Qed.
+Print Assumptions C06_rshift_code_form_meets_optimality_hypotheses.
